@@ -740,12 +740,12 @@ func (obj *SparseReal32Matrix) ITERATOR_FROM(i, j int) *SparseReal32MatrixIterat
   return &r
 }
 func (obj *SparseReal32Matrix) JOINT_ITERATOR(b ConstMatrix) *SparseReal32MatrixJointIterator {
-  r := SparseReal32MatrixJointIterator{obj.ITERATOR(), b.ConstIterator(), -1, -1, nil, nil}
+  r := SparseReal32MatrixJointIterator{obj.ITERATOR(), b.ConstIterator(), -1, -1, nil, nil, false}
   r.Next()
   return &r
 }
 func (obj *SparseReal32Matrix) JOINT3_ITERATOR(b, c ConstMatrix) *SparseReal32MatrixJoint3Iterator {
-  r := SparseReal32MatrixJoint3Iterator{obj.ITERATOR(), b.ConstIterator(), c.ConstIterator(), -1, -1, nil, nil, nil}
+  r := SparseReal32MatrixJoint3Iterator{obj.ITERATOR(), b.ConstIterator(), c.ConstIterator(), -1, -1, nil, nil, nil, false}
   r.Next()
   return &r
 }
@@ -778,13 +778,13 @@ type SparseReal32MatrixJointIterator struct {
   i, j int
   s1 *Real32
   s2 ConstScalar
+  ok bool
 }
 func (obj *SparseReal32MatrixJointIterator) Index() (int, int) {
   return obj.i, obj.j
 }
 func (obj *SparseReal32MatrixJointIterator) Ok() bool {
-  return !(obj.s1 == nil || obj.s1.GetFloat32() == float32(0)) ||
-         !(obj.s2 == nil || obj.s2.GetFloat32() == float32(0))
+  return obj.ok
 }
 func (obj *SparseReal32MatrixJointIterator) Next() {
   ok1 := obj.it1.Ok()
@@ -806,6 +806,9 @@ func (obj *SparseReal32MatrixJointIterator) Next() {
       obj.s2 = obj.it2.GetConst()
     }
   }
+  // the iteration ends when no iterator delivered an element, elements
+  // with value zero must not terminate it
+  obj.ok = obj.s1 != nil || obj.s2 != nil
   if obj.s1 != nil {
     obj.it1.Next()
   }
@@ -840,6 +843,7 @@ func (obj *SparseReal32MatrixJointIterator) Clone() *SparseReal32MatrixJointIter
   r.j = obj.j
   r.s1 = obj.s1
   r.s2 = obj.s2
+  r.ok = obj.ok
   return &r
 }
 func (obj *SparseReal32MatrixJointIterator) CloneJointIterator() MatrixJointIterator {
@@ -858,14 +862,13 @@ type SparseReal32MatrixJoint3Iterator struct {
   s1 *Real32
   s2 ConstScalar
   s3 ConstScalar
+  ok bool
 }
 func (obj *SparseReal32MatrixJoint3Iterator) Index() (int, int) {
   return obj.i, obj.j
 }
 func (obj *SparseReal32MatrixJoint3Iterator) Ok() bool {
-  return !(obj.s1 == nil || obj.s1.GetFloat32() == 0.0) ||
-         !(obj.s2 == nil || obj.s2.GetFloat32() == 0.0) ||
-         !(obj.s3 == nil || obj.s3.GetFloat32() == 0.0)
+  return obj.ok
 }
 func (obj *SparseReal32MatrixJoint3Iterator) Next() {
   ok1 := obj.it1.Ok()
@@ -903,6 +906,9 @@ func (obj *SparseReal32MatrixJoint3Iterator) Next() {
       obj.s3 = obj.it3.GetConst()
     }
   }
+  // the iteration ends when no iterator delivered an element, elements
+  // with value zero must not terminate it
+  obj.ok = obj.s1 != nil || obj.s2 != nil || obj.s3 != nil
   if obj.s1 != nil {
     obj.it1.Next()
   }
